@@ -23,6 +23,7 @@ type AlignedTicker struct {
 	chStop     chan struct{}
 	interval   time.Duration
 	offset     time.Duration
+	lastTick   time.Time // last boundary sent; only touched by the start goroutine
 }
 
 func NewAlignedTicker(interval, offset time.Duration) *AlignedTicker {
@@ -84,8 +85,14 @@ func (at *AlignedTicker) start(ctx context.Context) {
 
 func (at *AlignedTicker) sendTick(t time.Time) bool {
 	rounded := t.Add(-at.offset).Truncate(at.interval).Add(at.offset)
+	if !rounded.After(at.lastTick) {
+		// A tick delayed past the next boundary followed by a timely one rounds to the same
+		// boundary: never report a boundary twice (it would be a flush with zero elapsed time).
+		return true
+	}
 	select {
 	case at.chInternal <- rounded:
+		at.lastTick = rounded
 		return true
 	case <-at.chStop:
 		return false
